@@ -74,8 +74,12 @@ func (fx *FnCtx) opaqueCall(x *SCall, sf *SpecFunc, sub *Env, spkg *types.Packag
 			ground = false
 		}
 	}
-	if ground && !fx.root.heapAxiomDone[app] {
+	// ground definitional instances are not nested: a recursive definition is unfolded once per
+	// application written in a contract or reached by one unfolding, never transitively
+	if ground && !fx.root.heapAxiomDone[app] && fx.opaqueDepth < 2 {
 		fx.root.heapAxiomDone[app] = true
+		fx.opaqueDepth++
+		defer func() { fx.opaqueDepth-- }()
 		save := fx.pureEval
 		fx.pureEval = !sf.EntryState
 		saveSt := sub.st
